@@ -322,8 +322,11 @@ class _DeviceIdFilterMixin(_BaseProtocol):
     def hgi_id(self) -> DeviceIdT:
         if not self._transport:
             return self._known_hgi or HGI_DEV_ADDR.id
-        return self._transport.get_extra_info(  # type: ignore[no-any-return]
-            SZ_ACTIVE_HGI, self._known_hgi or HGI_DEV_ADDR.id
+        # NB: the transport holds this key with a value of None until the id is known
+        return (  # type: ignore[no-any-return]
+            self._transport.get_extra_info(SZ_ACTIVE_HGI)
+            or self._known_hgi
+            or HGI_DEV_ADDR.id
         )
 
     @staticmethod
